@@ -121,3 +121,13 @@ META["C20"] = dict(
                 "directions, with per-SETUP media identity and a byte tap on the client connection."),
     level_note="Trusted: net/url as the definition of (decoded path, raw query); loopback networking of the sandbox (127.0.0.1, ::1, localhost).",
 )
+
+META["C02"] = dict(
+    design_ref="DESIGN.md section 4, C02",
+    technique="model-based property testing (rapid): generated request sequences against a live server, checked step by step against a reference model of the RFC 2326 session state machine, with lifecycle-callback accounting",
+    level_text=("Exploration: generated request programs incl. illegal requests, wrong/missing session ids and reconnects, over five handler "
+                "subsets and two transport offers; the oracle is a state-machine model compared after every response through the public State() "
+                "accessor, plus response counting on the wire and open/close accounting."),
+    level_note=("Trusted: the reference model (status class only, 'either' where the documented sets and the RFC differ); the raw RTSP reader "
+                "(the library's own conn.Conn, verified separately by C04)."),
+)
